@@ -14,4 +14,51 @@ static inline double *RealVector_call(RealVector *v, long i)
 }
 #define RealVector_at RealVector_call
 static inline long RealVector_size(RealVector *v) { return v->size; }
+
+/* ---- additions for HamiltonianPart / FieldOperatorPart / DensityMatrixPart (pkgC) -------------------------------
+ * RealMatrix = Eigen::Matrix<double,Dynamic,Dynamic,RowMajor> (pomerol's MatrixType/RealMatrixType are declared
+ * with Eigen::RowMajor in Misc.h): coefficient (i,j) lives at data[i*cols+j].  No obligation depends on the storage
+ * order; what matters is that distinct (i,j) inside the matrix are distinct cells.
+ * ASSERTED: (i,j) inside the matrix at every coefficient access, col(j)/row(i) inside, resize with non-negative sizes.
+ * ASSUMED: resize succeeds (Eigen throws std::bad_alloc otherwise; that exit is not modelled) and leaves the
+ *   coefficients unspecified; setZero writes 0.0 to every coefficient; rows()/cols()/size() report the dimensions. */
+#define DENSE_MAXDIM (1L << 20)   /* largest dimension for which the model's allocation (8*rows*cols bytes) is representable */
+typedef struct RealMatrix { long rows, cols; double *data; } RealMatrix;
+static inline _Bool RealMatrix_wf(RealMatrix *m, long maxdim)
+{ return m->rows >= 0 && m->rows <= maxdim && m->cols >= 0 && m->cols <= maxdim &&
+         __CPROVER_is_fresh(m->data, m->rows * m->cols * sizeof(double)); }
+static inline double *RealMatrix_call(RealMatrix *m, long i, long j)
+{
+  __CPROVER_assert(0 <= i && i < m->rows, "Eigen matrix coefficient access: row inside the matrix");
+  __CPROVER_assert(0 <= j && j < m->cols, "Eigen matrix coefficient access: column inside the matrix");
+  return &m->data[i * m->cols + j];
+}
+static inline long RealMatrix_rows(RealMatrix *m) { return m->rows; }
+static inline long RealMatrix_cols(RealMatrix *m) { return m->cols; }
+void *malloc(size_t);
+static inline void RealMatrix_resize(RealMatrix *m, long r, long c)
+{
+  __CPROVER_assert(r >= 0 && c >= 0, "Eigen resize: non-negative dimensions");
+  __CPROVER_assert(r <= DENSE_MAXDIM && c <= DENSE_MAXDIM, "dense model: dimension within DENSE_MAXDIM");
+  m->rows = r; m->cols = c;
+  m->data = malloc((size_t)r * (size_t)c * sizeof(double));
+  __CPROVER_assume(m->data != (double *)0);   /* ASSUMED: allocation succeeds */
+}
+static inline void RealMatrix_setZero(RealMatrix *m)
+{ if (m->rows > 0 && m->cols > 0) __CPROVER_array_set(m->data, 0.0); }
+static inline void RealVector_resize(RealVector *v, long n)
+{
+  __CPROVER_assert(n >= 0, "Eigen resize: non-negative size");
+  __CPROVER_assert(n <= DENSE_MAXDIM * DENSE_MAXDIM, "dense model: size representable");
+  v->size = n;
+  v->data = malloc((size_t)n * sizeof(double));
+  __CPROVER_assume(v->data != (double *)0);   /* ASSUMED: allocation succeeds */
+}
+/* `v << x;` (CommaInitializer with ONE value): Eigen asserts on destruction of the initializer that the whole
+ * object was filled, i.e. size()==1.  ASSERTED. */
+static inline void RealVector_shl(RealVector *v, const double *x)
+{
+  __CPROVER_assert(v->size == 1, "Eigen comma initializer with one value: the vector has exactly one coefficient");
+  v->data[0] = *x;
+}
 #endif
